@@ -526,6 +526,9 @@ func (w *World) CanonI(v ssa.Value) string {
 // callers' callers, through up to three levels; one binding per call chain. A
 // function without (static, same-shape) callers has the single empty binding.
 func (w *World) callerEnvs(fn *ssa.Function, d int) []map[*ssa.Parameter]string {
+	if fn != nil && fn == w.envRoot {
+		return []map[*ssa.Parameter]string{nil} // the terms asked for are this function's own
+	}
 	if d >= 3 || fn == nil || fn.Blocks == nil || len(fn.Params) == 0 || (fn.Object() != nil && fn.Object().Exported()) {
 		return []map[*ssa.Parameter]string{nil}
 	}
